@@ -325,6 +325,9 @@ class BaseInterpreter(Generic[TContext, TEvent]):
         self._actor_sources: Dict[str, str] = {}
         #: Current nesting depth of action expansion.
         self._action_depth: int = 0
+        #: Entry counter per state that owns `after` timers; stamps each
+        #: `AfterEvent` so a stale expiry of an earlier activation is ignored.
+        self._after_activations: Dict[str, int] = {}
         self._actors: Dict[str, "BaseInterpreter[Any, Any]"] = {}
 
         # 🔗 Extensibility & Introspection
@@ -2591,9 +2594,16 @@ class BaseInterpreter(Generic[TContext, TEvent]):
 
             # ⏰ `after` transitions for timed events.
             if isinstance(event, AfterEvent):
+                # 🔢 An expiry queued by an EARLIER activation of this state
+                #    (the state was left and re-entered while the notification
+                #    sat behind other events) is stale: the timer it reports
+                #    was cancelled with that activation.
+                stamp = getattr(event, "activation", None)
+                current_stamp = self._after_activations.get(current.id)
+                fresh = stamp is None or stamp == current_stamp
                 for transitions in current.after.values():
                     for t in transitions:
-                        if t.event == event.type and _passes(t):
+                        if fresh and t.event == event.type and _passes(t):
                             eligible.append(t)
 
             # 🤖 `onDone`/`onError` for invoked services.
@@ -2870,6 +2880,10 @@ class BaseInterpreter(Generic[TContext, TEvent]):
             state (StateNode): The state being entered.
         """
         # 🕒 Schedule `after` timers.
+        activation = 0
+        if state.after:
+            activation = self._after_activations.get(state.id, 0) + 1
+            self._after_activations[state.id] = activation
         for delay_ms, transitions in state.after.items():
             # 🏷️ Symbolic delays resolve through MachineLogic.delays.
             resolved_ms = self._resolve_delay(delay_ms, None)
@@ -2883,7 +2897,9 @@ class BaseInterpreter(Generic[TContext, TEvent]):
                 continue
             for t_def in transitions:
                 delay_sec = float(resolved_ms) / 1000.0
-                after_event = AfterEvent(type=t_def.event)
+                after_event = AfterEvent(
+                    type=t_def.event, activation=activation
+                )
                 self._after_timer(delay_sec, after_event, owner_id=state.id)
                 logger.debug(
                     "🕒 Scheduled 'after' event '%s' in %.2fs for state '%s'.",
